@@ -7,10 +7,20 @@ sys.path.insert(0, os.path.dirname(os.path.dirname(os.path.abspath(__file__))))
 from units import UNITS  # noqa: E402
 
 
+# properties whose theorems rest on another property's model: the translator-tie theorems of the foundation are
+# obligations of the dependent property too (a changed limb kernel invalidates the composition)
+DEP_MODULES = {
+    "C06": ["CxVerif.Props.C05.KernelTie"], "C07": ["CxVerif.Props.C05.KernelTie"], "C09": ["CxVerif.Props.C05.KernelTie"],
+}
+
+
 def lean_modules(prop):
     mods = []
     for u in UNITS.values():
         mods += u.get("props", {}).get(prop, [])
+    for m in DEP_MODULES.get(prop, []):
+        if m not in mods:
+            mods.append(m)
     return mods
 
 
@@ -32,7 +42,7 @@ def gens(prop):
 # pattern (chunking, reset-before-result, …) is seen by this check too
 ALSO = {
     "C01": {"C02": 50}, "C02": {"C01": 10}, "C03": {"C04": 4}, "C04": {"C03": 4},
-    "C05": {"C09": 20}, "C06": {"C07": 10}, "C07": {"C06": 10},
+    "C05": {"C09": 20}, "C06": {"C07": 10, "C05": 4, "C03": 3}, "C07": {"C06": 10, "C05": 6, "C03": 6},
     "C08": {"C09": 4}, "C09": {"C08": 3, "C05": 10}, "C10": {"C09": 20, "C08": 5},
     "C12": {"C15": 20}, "C13": {"C14": 5, "C15": 30}, "C14": {"C13": 3, "C15": 30}, "C15": {"C12": 10, "C13": 5, "C14": 5},
 }
